@@ -667,6 +667,86 @@ def c_design(name, regular_comb=True):
                                                                  "litex.gen.fhdl.verilog._generate_synchronous_logic", "litex.gen.fhdl.memory._memory_generate_verilog", "litex.gen.fhdl.instance._instance_generate_verilog"], samples=[dict(program=n)])
     raise KeyError(name)
 
+# ---------------------------------------------------------------------------------------------------------------------------
+# 2b. grammar-generated programs (seeded): statement nests the fixed corpus does not contain
+def _gen_program(rng):
+    """one random FHDL program: If/Elif/Else and Case nests (with and without default, empty branches), whole-signal / slice / Cat / Array
+    targets, comb and sync, non-zero reset values.  Expressions stay inside the classes the expression lemma proves equal (depth-1 operators
+    over signals, slices of unsigned signals and non-negative constants): the listed finding classes (intermediate overflow under a
+    context-opaque consumer, negative constants) are not generated."""
+    class G(Module): pass
+    d = G()
+    ins = [Signal((rng.randint(1, 6), rng.random() < 0.3), name_override=f"i{k}") for k in range(4)]
+    combs = [Signal((rng.randint(1, 7), rng.random() < 0.25), name_override=f"c{k}", reset=rng.randint(0, 1)) for k in range(3)]
+    regs = [Signal((rng.randint(1, 7), rng.random() < 0.25), name_override=f"r{k}") for k in range(3)]
+    for r_ in regs: r_.reset = Constant(rng.randint(0, (1 << (len(r_) - (1 if r_.signed else 0))) - 1), (len(r_), r_.signed))
+    for c_ in combs: c_.reset = Constant(rng.randint(0, (1 << (len(c_) - (1 if c_.signed else 0))) - 1), (len(c_), c_.signed))
+    arr = Array(regs[:2])
+    readable = ins + regs
+    def atom():
+        k = rng.random()
+        if k < 0.55: return rng.choice(readable)
+        if k < 0.8:
+            sgs = [x for x in readable if not x.signed and len(x) > 1]
+            if sgs:
+                sg = rng.choice(sgs); lo = rng.randrange(len(sg)); hi = rng.randint(lo + 1, len(sg)); return sg[lo:hi]
+            return rng.choice(readable)
+        return Constant(rng.randint(0, 9))
+    def expr():
+        k = rng.random(); a, b_ = atom(), atom()
+        if k < 0.3: return a
+        if k < 0.7: return rng.choice([lambda: a + b_, lambda: a - b_, lambda: a & b_, lambda: a | b_, lambda: a ^ b_, lambda: a == b_, lambda: a != b_, lambda: a < b_, lambda: a >= b_, lambda: ~a])()
+        if k < 0.8: return Mux(cond(), a, b_)
+        if k < 0.9: return Cat(a, b_)
+        return Replicate(a, rng.randint(1, 3))
+    def cond():
+        k = rng.random()
+        if k < 0.5: return rng.choice(readable)
+        a, b_ = atom(), atom()
+        return rng.choice([lambda: a == b_, lambda: a != b_, lambda: a < b_, lambda: a <= b_])()
+    def target(tgts, sync):
+        t = rng.choice(tgts); k = rng.random()
+        if k < 0.55 or len(t) < 2: return t
+        if k < 0.85:
+            lo = rng.randrange(len(t)); hi = rng.randint(lo + 1, len(t)); return t[lo:hi]
+        if sync and k < 0.93: return arr[rng.choice([x for x in ins if not x.signed] or [Constant(0)])] if not any(x is regs[0] or x is regs[1] for x in []) else t
+        return Cat(t[len(t) - 1], t[0])          # bits of ONE signal in another order (a Cat over several signals is one statement with several targets: the per-target sim printer repeats it in every target's block)
+    def stmts(tgts, depth, sync):
+        out = []
+        for _ in range(rng.randint(1, 3)):
+            k = rng.random()
+            if depth == 0 or k < 0.45: out.append(target(tgts, sync).eq(expr()))
+            elif k < 0.75:
+                st = If(cond(), *stmts(tgts, depth - 1, sync))
+                for _ in range(rng.randint(0, 2)): st = st.Elif(cond(), *stmts(tgts, depth - 1, sync))
+                if rng.random() < 0.6: st = st.Else(*stmts(tgts, depth - 1, sync))
+                out.append(st)
+            else:
+                sel = rng.choice([x for x in readable if not x.signed] or readable); n = min(1 << len(sel), 4)
+                keys = rng.sample(range(1 << len(sel)), rng.randint(1, n)) if not sel.signed else [0]
+                cases_ = {k_: (stmts(tgts, depth - 1, sync) if rng.random() < 0.85 else []) for k_ in keys}
+                if rng.random() < 0.6: cases_["default"] = stmts(tgts, depth - 1, sync)
+                out.append(Case(sel, cases_))
+        return out
+    d.comb += stmts(combs, 2, False)
+    readable = ins + regs + combs
+    d.sync += stmts(regs, 2, True)
+    return d, set(ins + combs + regs)
+
+def c_random_programs(seed, first, count):
+    import random
+    out = []
+    for k in range(first, first + count):
+        rng = random.Random(seed * 100003 + k)
+        try:
+            d, ios = _gen_program(rng)
+        except Exception as e:
+            out.append(res(f"gen[{seed}:{k}]", "harness", "checker-fault", 0, "", info=f"generator: {type(e).__name__}: {e}")); continue
+        rs = tv_design(f"generated({seed}:{k})", d, ios, regular_comb=(k % 3 != 0))
+        out += [r_ for r_ in rs if not r_["name"].startswith("finding.port-reg-init")]           # power-up value of port registers: covered by the listed finding on the fixed corpus
+    return dict(results=out, functions=["litex.gen.fhdl.verilog._generate_node", "litex.gen.fhdl.verilog._generate_combinatorial_logic_synth/_sim", "litex.gen.fhdl.verilog._generate_synchronous_logic", "litex.gen.fhdl.verilog._ComplexSliceLowerer"],
+                samples=[dict(generated_programs=f"seed {seed}, programs {first}..{first + count - 1}", grammar="If/Elif/Else, Case (default / none / empty branches), whole/slice/Cat/Array targets, comb and sync")])
+
 def c_case_sim():
     """statement-level differential against the REAL simulator (exhaustive over inputs, narrow): Case/If tests built from operator
     expressions (truncated test value), compared with the IEEE-1364 value of the real printer's text"""
@@ -707,6 +787,9 @@ def cases(tier):
     cs += [VCase(f"design[{n}]", c_design, n, timeout=900) for n, _ in _corpus()]
     cs += [VCase(f"design-simcomb[{n}]", c_design, n, False, timeout=900) for n, _ in _corpus()]     # same programs through _generate_combinatorial_logic_sim
     cs.append(VCase("case-sim", c_case_sim))
+    import os
+    seed = int(os.environ.get("VERIF_SEED", "0")); n = 48 if tier == "quick" else 480
+    cs += [VCase(f"generated(seed={seed},{f}..{f + 11})", c_random_programs, seed, f, 12, timeout=900) for f in range(0, n, 12)]
     return cs
 
 ASSUMPTIONS = ["vf/vexpr.py + vf/vlog.py are a hand-written specification of IEEE 1364-2005 for the emitted subset (self-determined/context widths, sign rules, $signed, concatenation, part-select writes, memories, $readmemh); anything outside the grammar is reported undecided",
